@@ -561,6 +561,35 @@ func init() {
 				}
 				r.Extra["L_completed"] = L
 			}
+			// part-count dimension: structured locations of 6..10 (thorough 16) parts x every deletion of 1..3 residues and
+			// every window with both ends inside [0,L]
+			{
+				maxParts := 10
+				if r.Tier == "thorough" {
+					maxParts = 16
+				}
+				for parts := 6; parts <= maxParts && complete; parts++ {
+					L, locs := manyPartLocs(parts)
+					r.States.Add(int64(len(locs)))
+					done := r.ParallelFor(len(locs)*(L+1), func(idx int) {
+						loc, i := locs[idx/(L+1)], idx%(L+1)
+						enc := []string{locdom.Encode(loc)}
+						for n := 1; n <= 3 && i+n <= L; n++ {
+							eval(c03Case{Op: "delete", L: L, Locs: enc, I: i, N: n}, true)
+							eval(c03Case{Op: "erase", L: L, Locs: enc, I: i, N: n}, true)
+						}
+						for e := 0; e <= L; e++ {
+							if e != i {
+								eval(c03Case{Op: "slice", L: L, Locs: enc, I: i, N: e}, true)
+							}
+						}
+					})
+					complete = complete && done
+					if done {
+						r.Extra["many_parts_completed"] = parts
+					}
+				}
+			}
 			// reachable, non-clean shapes through Delete with the relaxed oracle
 			if complete {
 				wideL := []int{2, 3}
